@@ -86,6 +86,7 @@ DecapCalls(kem) ==
 \* (The terms "mksk" / "mkxy" are the constructed inputs of MC_Codec.tla; the oracle builds them from the curve.)
 SpecialSk(kem) == {T(<<"mksk", kem, rc, 1>>, Nsk(kem)) : rc \in {"one", "two", "nminus1"}}
 SpecialPk(kem) == {Cat(Lit(<<4>>), T(<<"mkxy", kem, rc, i>>, 2 * Nsk(kem))) : rc \in {"smallx", "leadzero"}, i \in 1..2}
+                  \cup {Cat(Lit(<<4>>), T(<<"mkxy", kem, "xzero", 1>>, 2 * Nsk(kem)))}     \* (0, sqrt(b)): a valid point
 SpecialCalls(kem) ==
     IF kem \notin NistKems THEN {}
     ELSE {Rec("sk_to_pk", kem, [sk |-> sk], "ok", "", [pk |-> PK(kem, sk)], EmptyF) : sk \in SpecialSk(kem)}
@@ -94,7 +95,27 @@ SpecialCalls(kem) ==
          \cup {EncapRec(kem, pkR, idS, RngOf("E", kem, 2)) :
                   pkR \in SpecialPk(kem), idS \in {NoId} \cup {Id(sk, PK(kem, sk)) : sk \in SpecialSk(kem)}}
 
-Calls == UNION {DeriveCalls(k) \cup GenCalls(k) \cup SkToPkCalls(k) \cup EncapCalls(k) \cup DecapCalls(k) \cup SpecialCalls(k) : k \in KemSet}
+\* X25519, special VALUES of the Diffie-Hellman output: peer keys constructed (by the oracle, from the scalar) so that
+\* X25519(sk, peer) is a legitimate, non-zero output of a particular SHAPE - words that XOR to zero, a zero upper or
+\* lower half, a single non-zero byte, 32 equal bytes.  None of them is the all-zero value, so setup must succeed
+\* and the shared secret is the RFC's; a sloppy zero test (XOR for OR, a dropped remainder) or a truncating encoder shows.
+Shapes == {"xorfold", "abab", "lowzero", "highzero", "onebyte", "allsame"}
+ShapedPeer(sk, sh, i) == T(<<"x25519pre", sk, sh, i>>, 32)
+ShapedCalls(kem) ==
+    IF kem # KEM_X25519 THEN {}
+    ELSE {DecapRec(kem, KP("R", kem).sk, NoPk, ShapedPeer(KP("R", kem).sk, sh, i)) : sh \in Shapes, i \in 1..2}
+         \cup {DecapRec(kem, KP("R", kem).sk, SomePk(ShapedPeer(KP("R", kem).sk, sh, 1)), EncOf(kem)) : sh \in Shapes}
+         \cup {LET ske == GenKeyPair(kem, RngOf("E", kem, 2)).sk
+                IN EncapRec(kem, ShapedPeer(ske, sh, 1), NoId, RngOf("E", kem, 2)) : sh \in Shapes}
+\* special RNG outputs: all-zero and all-0xff draws followed by other bytes (the draw is used as it is: exactly Nsk bytes)
+SpecialRngs(kem) == {Cat(Lit(Zeros(Nsk(kem))), Leaf("rngafter0", 40)), Cat(Lit(Fill(255, Nsk(kem))), Leaf("rngafterf", 40))}
+SpecialRngCalls(kem) ==
+    {Rec("gen_keypair", kem, [rng |-> r], "ok", "", [sk |-> GenKeyPair(kem, r).sk, pk |-> GenKeyPair(kem, r).pk], [drawn |-> Nsk(kem)])
+     : r \in SpecialRngs(kem)}
+    \cup {EncapRec(kem, KP("R", kem).pk, NoId, r) : r \in SpecialRngs(kem)}
+
+Calls == UNION {DeriveCalls(k) \cup GenCalls(k) \cup SkToPkCalls(k) \cup EncapCalls(k) \cup DecapCalls(k) \cup SpecialCalls(k)
+                \cup ShapedCalls(k) \cup SpecialRngCalls(k) : k \in KemSet}
 
 Init == last = [op |-> "init"]
 Next == \E c \in Calls : last' = c
